@@ -154,6 +154,18 @@ def at_site(pb, fn, node):
     return PolyBuilder(pb.atom_fn, dict(pb.rename, **pc)) if pc else pb
 
 
+def has_raw(pk):
+    """does a polynomial (pkey form or dict) contain a leaf that the builder did not understand - the unparsed text of a call,
+    a conditional expression, a subscript of something that is no table?  A difference that involves such a leaf is not a
+    definite difference"""
+    items = pk.items() if isinstance(pk, dict) else pk
+    for mono, _ in items:
+        for a in mono:
+            if isinstance(a, str) and (" if " in a or "(" in a or " " in a.strip()):
+                return True
+    return False
+
+
 NEG = {"Lt": "GtE", "LtE": "Gt", "Gt": "LtE", "GtE": "Lt", "Eq": "NotEq", "NotEq": "Eq"}
 
 
@@ -411,7 +423,7 @@ def run(chk, ctx):
                     # same loop variable renaming tolerated: compare after renaming the comprehension variable
                     match = [t for t in tsites if t["elem"] == d["elem"]]
                 if not match:
-                    res.append((cons, False if tsites else None,
+                    res.append((cons, False if (tsites and not has_raw(d["elem"])) else None,
                                f"candidate `{d['text']}` is not an expression minimised by {tname} "
                                f"(its candidates: {[t['text'] for t in tsites]})", d["node"]))
                     continue
@@ -618,7 +630,7 @@ def homo(chk, ctx, rf):
                 chk.decide("C07.HOMO", cons, None, why, rel=drel, node=items[0].node)
                 continue
             same = pkey(total) == d["elem"]
-            chk.decide("C07.HOMO", cons, True if same else False,
+            chk.decide("C07.HOMO", cons, True if same else (None if (has_raw(d["elem"]) or has_raw(total)) else False),
                        f"production {[repr(x) for x in items][:6]} costs {pstr(total)}; the decision minimises `{d['text']}` "
                        f"= {pstr(dict(d['elem']))}", rel=drel, node=items[0].node)
 
